@@ -497,6 +497,19 @@ func (w *world) restore() {
 		// aqua_getWork / testing_getBlockTemplate / miner_start leave the CPU miner running
 		w.aq.StopMining()
 	}
+	// Each keystore account has one pending transaction in the pool that its owner signed offline (it
+	// equals the "full" transaction-argument object of the lattice): methods that act on an existing
+	// pending transaction of an account (re-send with another price) find something to act on.
+	for _, k := range []struct {
+		key  *btcec.PrivateKey
+		from common.Address
+	}{{keyUnlocked, addrUnlocked}, {keyLocked, addrLocked}} {
+		seed := types.NewTransaction(0, addrUnknown, big.NewInt(1), 21000, big.NewInt(1_000_000_000), nil)
+		if signed, err := types.SignTx(seed, w.signer, k.key); err == nil && w.aq.TxPool().Get(signed.Hash()) == nil {
+			w.aq.TxPool().AddRemote(signed)
+			w.known[txToken(signed)] = true
+		}
+	}
 	for _, wl := range w.ks.Wallets() {
 		for _, a := range wl.Accounts() {
 			st, _ := wl.Status()
@@ -1164,6 +1177,7 @@ func runWorker(cfg config) {
 		if wal != nil {
 			fmt.Fprintf(wal, "%s\n", m.wire())
 		}
+		w.restore() // (idempotent) seeds the owner-signed pending transactions before the baseline is taken
 		before := copySet(w.known)
 		t0 := time.Now()
 		cmark := w.rec.mark()
